@@ -648,6 +648,8 @@ def form_greenhouse(index, rep):
         kw = {k.arg: k.value for k in foods[0].keywords}
         for lane, slot in (("kcals", 0), ("fat", 1), ("protein", 2)):
             c = kw.get(lane)
+            if isinstance(c, ast.Name) and inl_pf.single(c.id) is not None:
+                c = inl_pf.single(c.id)        # the product computed into a local first
             ok = ok and isinstance(c, ast.Call) and dotted(c.func) == "np.multiply" and len(c.args) == 2
             if ok:
                 alts = [inl_pf.alternatives(a_) or ["?"] for a_ in c.args]
